@@ -184,6 +184,20 @@ ADDENDA3 = {
     "C20": ("; capacity rule for the copy of the opcode-set name", " Also decides that a set name as long as the prefix array allows is stored completely, so the set is found under that name."),
 }
 
+# Additions after the fourth seeding round
+ADDENDA4 = {
+    "C03": ("; must-pass-through for the n1 <= n clamp of the three-region split", " Also decides that the three-region split compares the alignment prologue count with ex->n and branches, on every emitting path."),
+    "C04": ("; role agreement of the generated loop-bound declarations", " Also decides that generated C takes n and m from constant_n / constant_m or from the executor slots emulation reads."),
+    "C06": ("; error-number sentinels (functions returning errno values)", " The sentinel rule also covers functions that return an error number (posix_fallocate etc.): non-zero must be treated as failure."),
+    "C07": ("; the integer codec rules of the bytecode format (shared with C13)", " Also decides that the integer codecs of the bytecode a wrapper carries mirror each other (escape threshold, byte order)."),
+    "C09": ("; must-hold lock analysis of the chunk lists (shared with C08)", " Also decides that the chunk lists are only touched with the global mutex held."),
+    "C12": ("; bound derivation for the selection of one-byte-immediate rows", " Also decides that a one-byte-immediate table row is selected for a run-time immediate only where it is known to lie in [-128, 127]."),
+    "C13": ("; fresh-slot rule for the constant constructors the decoder calls", " Also decides that orc_program_add_constant / _int64 always append a new slot, so slot numbers survive the round trip."),
+    "C15": ("; slot-coverage rule for the parser's operand helpers", " Also decides that the parser's operand helpers look at every destination and source slot of an opcode."),
+    "C17": ("; scan for emission-pointer advances without stores (positive control fixture)", " Also decides that no emitter advances codeptr without writing the bytes it steps over (the compile buffer is not cleared)."),
+    "C20": ("; exact-comparison rule for the by-name lookup of opcode sets", " Also decides that an opcode set is found only under its whole name."),
+}
+
 NOT_YET = "check under construction in this round; not claimed until its rules are exact on the current tree"
 NOT_APPLICABLE = {
     "C01": "value equivalence of JIT code and emulation over all inputs/register allocations: no structural necessary condition beyond what C03/C10/C11 decide; needs execution or translation validation (other technique families)",
@@ -206,6 +220,9 @@ def main():
                 tech, text = tech + a[0], text + a[1]
             if pid in ADDENDA3:
                 a = ADDENDA3[pid]
+                tech, text = tech + a[0], text + a[1]
+            if pid in ADDENDA4:
+                a = ADDENDA4[pid]
                 tech, text = tech + a[0], text + a[1]
             checks.append({
                 "property_id": pid,
